@@ -13,7 +13,7 @@ from . import c01
 
 PROPERTY = "C02"
 LEVEL = "exploration"
-TECHNIQUE = 'property-based testing (Hypothesis): oracle = symbolic derivative of the emitted RHS polynomial, both directions (emitted entries correct, omitted entries identically zero); unparsable text judged by clang++ -fsyntax-only'
+TECHNIQUE = 'property-based testing (Hypothesis): oracle = symbolic derivative of the emitted RHS polynomial, both directions (emitted entries correct, omitted entries identically zero); unparsable text judged by clang++ -fsyntax-only; a fraction of the cases executes the cuSPARSE kernels on a batch of cells (host emulation of the CUDA launch) and compares every cell with the dense back-end'
 RULE = (
     "C01's generated networks plus ODE modifiers of every shape (0-3 terms, 0/1/2/3 dependency species, repeated "
     "dependencies, signed/arithmetic factors) rendered for all four back-ends; every emitted Jacobian entry "
@@ -26,7 +26,7 @@ RULE = (
 ASSUMPTIONS = [
     "'rate coefficients held fixed' is extended to every non-y[...] symbol of the emitted text (npar, gamma, modifier factors)",
     "text my reader cannot parse counts as a violation only when clang++ -fsyntax-only also rejects the statement",
-    "cuSPARSE back-end observed as kernel text only",
+    "cuSPARSE back-end: kernel text for every case; for a fraction of the cases the rendered .cu files are compiled as C++ against a host emulation of the CUDA launch (vtlib/cxx/shim/vt_cuda.h, launch syntax rewritten mechanically) and run on 2-5 cells",
 ]
 
 
